@@ -3,14 +3,18 @@ C20 driver: parses the case lines the harness executes (harness/c20/c20.c, harne
 (`model` mode) or the specification oracle on an implementation trace (`judge` mode).
 
 Case lines:
-  pol cf <dir> <spec>              creator_file answer for /c20/<dir>/...
+  pol cf <dir> [drop+]<spec>       creator_file answer for /c20/<dir>/...; `drop+`: the master first calls back into the
+                                   creating object - when that is the master itself - and makes it seteuid(0)
   pol vs <oid|*> <uid|*|-> <spec>  valid_seteuid answer (`-` = empty uid)
+  pol vb <doer|*> <new owner|*> <spec>   valid_bind answer
+  pol root <name> / pol bb <name>  get_root_uid() / get_bb_uid() answer this from now on (matters at a master reload)
   pol co <dir> none|i:<n>|err|t:<template path>|-   compile_object answer for /c20/<dir>/... (`-` = no policy)
   script <name> <op>;<op>..|-      ops run by create() of the object with that file name (<path> / <path>#)
   do <oid> <op>                    op: seteuid,s:<name> | seteuid,i:<n> | export,<oid> | load,<path> |
-                                       clone,<newoid>,<path> | dest,<oid> | reload,<oid>
+                                       clone,<newoid>,<path> | dest,<oid> | reload,<oid> | via,<owner>,<op> |
+                                       bind,<new owner>,<load..|clone..>
   spec: s:<text> | i:<n> | arr | err | none
-Trace lines:  do / vs / co / cf / new / r / q / crash
+Trace lines:  do / vs / vb / co / cf / new / r / q / crash
 -/
 import NV.Common.Proto
 import NV.C20.Model
@@ -35,6 +39,7 @@ def Ans.render : Ans → String
 
 def Op.render : Op → String
   | .via t op => "via," ++ t ++ "," ++ op.render
+  | .bind t op => "bind," ++ t ++ "," ++ op.render
   | .seteuidStr s => "seteuid,s:" ++ s
   | .seteuidInt n => "seteuid,i:" ++ toString n
   | .exportUid t => "export," ++ t
@@ -49,6 +54,8 @@ def Err.render : Err → String
   | .exportZero => "Illegal_to_export_uid_0"
   | .badArg => "*Bad_argument"
   | .policy => "*policy_error"
+  | .simulDest => "*Cannot_destruct_simul_efun_object_while_master_object_exists."
+  | .bindDenied => "Permission_of_binding_denied_by_master_object."
 
 def Res.render : Res → String
   | .int n => toString n
@@ -99,8 +106,11 @@ def StepRec.render (r : StepRec) : List String :=
   let col := match r.co with
     | some (n, a) => ["co " ++ n ++ " " ++ a.render]
     | none => []
+  let vbl := match r.vb with
+    | some (d, n, a) => ["vb " ++ d ++ " " ++ n ++ " " ++ a.render]
+    | none => []
   let (cl, crashed) := renderCreations r.creations
-  let vsl := vsl ++ col
+  let vsl := vsl ++ vbl ++ col
   if crashed then head ++ vsl ++ cl
   else
     let rl := match r.res with
@@ -138,6 +148,7 @@ def parseCo (s : String) : Option CoAns :=
 partial def parseOp (s : String) : Option Op :=
   match s.splitOn "," with
   | "via" :: t :: rest => (parseOp (",".intercalate rest)).map (.via t)
+  | "bind" :: t :: rest => (parseOp (",".intercalate rest)).map (.bind t)
   | ["seteuid", a] =>
     if a.startsWith "s:" then some (.seteuidStr (a.drop 2).toString)
     else if a.startsWith "i:" then (a.drop 2).toString.toInt?.map .seteuidInt
@@ -153,6 +164,11 @@ structure Tables where
   cf : List (String × Ans) :=
     [("u1", .str "u1"), ("u2", .str "u2"), ("bb", .str "Backbone"), ("root", .str "Root"), ("odd", .int 0)]
   vs : List (String × Ans) := []
+  vb : List (String × Ans) := []
+  /-- `pol root <name>`: what get_root_uid() answers from now on -/
+  root : Option Name := none
+  /-- directories whose creator_file answer is preceded by the master's callback into itself (`drop+<spec>`) -/
+  cfd : List (String × Bool) := []
   scripts : List (String × List Op) := []
   co : List (String × Option CoAns) := []
 
@@ -163,6 +179,11 @@ def Tables.cfAns (t : Tables) (name : String) : Ans :=
   match name.splitOn "/" with
   | "" :: "c20" :: d :: _ :: _ => (lookupS t.cf d).getD (.str "Root")
   | _ => .str "Root"
+
+def Tables.cfDrop (t : Tables) (name : String) : Bool :=
+  match name.splitOn "/" with
+  | "" :: "c20" :: d :: _ :: _ => ((t.cfd.find? (fun e => e.1 == d)).map (·.2)).getD false
+  | _ => false
 
 def Tables.coAns (t : Tables) (name : String) : CoAns :=
   match name.splitOn "/" with
@@ -183,7 +204,32 @@ def Tables.vsAns (t : Tables) (o : Oid) (u : Name) : Ans :=
       | some a => a
       | none => (lookupS t.vs "*:*").getD (.int 1)
 
+/-- `cfg <flag>..` line: which verification master / simul_efun object the case runs under
+    (nobb: no get_bb_uid(); noroot: no get_root_uid(); novb: no valid_bind(); simul: the simul_efun object /c20/simul is
+    actor `se`) -/
+def applyCfgFlag (c : Cfg) (f : String) : Option Cfg :=
+  if f == "nobb" then some { c with bb := none }
+  else if f == "noroot" then some { c with noRoot := true }
+  else if f == "simul" then some { c with simul := true }
+  else if f == "novb" then some { c with noVb := true }
+  else none
+
+def parseCfgFlags (fs : List String) : Option Cfg :=
+  fs.foldl (fun c f => c.bind (applyCfgFlag · f)) (some driveCfg)
+
+def Tables.vbAns (t : Tables) (d : Oid) (n : Oid) : Ans :=
+  match lookupS t.vb (d ++ ":" ++ n) with
+  | some a => a
+  | none =>
+    match lookupS t.vb (d ++ ":*") with
+    | some a => a
+    | none =>
+      match lookupS t.vb ("*:" ++ n) with
+      | some a => a
+      | none => (lookupS t.vb "*:*").getD (.int 1)
+
 structure Parsed where
+  cfg : Cfg := driveCfg
   tab : Tables := {}
   steps : List ((Oid × Op) × Tables) := []
   bad : List String := []
@@ -192,6 +238,11 @@ def parseLine (p : Parsed) (line : String) : Parsed :=
   match toks line with
   | [] => p
   | ["load", "reg", "/c20/reg"] => p
+  | "cfg" :: flags =>
+    -- only as the first line of a case
+    match parseCfgFlags flags with
+    | some c => if p.steps.isEmpty then { p with cfg := c } else { p with bad := line :: p.bad }
+    | none => { p with bad := line :: p.bad }
   | ["script", key, ops] =>
     if ops == "-" then { p with tab := { p.tab with scripts := (key, []) :: p.tab.scripts } }
     else
@@ -204,9 +255,18 @@ def parseLine (p : Parsed) (line : String) : Parsed :=
       match parseCo spec with
       | some a => { p with tab := { p.tab with co := (d, some a) :: p.tab.co } }
       | none => { p with bad := line :: p.bad }
-  | ["pol", "cf", d, spec] =>
+  | ["pol", "cf", d, spec0] =>
+    -- `drop+<spec>`: before answering, the master calls back into the creating object (if that is the master itself)
+    let drop := spec0.startsWith "drop+"
+    let spec := if drop then (spec0.drop 5).toString else spec0
     match parseAns spec with
-    | some a => { p with tab := { p.tab with cf := (d, a) :: p.tab.cf } }
+    | some a => { p with tab := { p.tab with cf := (d, a) :: p.tab.cf, cfd := (d, drop) :: p.tab.cfd } }
+    | none => { p with bad := line :: p.bad }
+  | ["pol", "root", n] => { p with tab := { p.tab with root := some n } }
+  | ["pol", "bb", _] => p        -- get_bb_uid() answers something else from now on: set_master ignores it after the first load
+  | ["pol", "vb", d, n, spec] =>
+    match parseAns spec with
+    | some a => { p with tab := { p.tab with vb := (d ++ ":" ++ n, a) :: p.tab.vb } }
     | none => { p with bad := line :: p.bad }
   | ["pol", "vs", o, u, spec] =>
     match parseAns spec with
@@ -236,13 +296,22 @@ def policyOf (steps : List ((Oid × Op) × Tables)) : Policy :=
       | none => [],
     co := fun i name => match arr[i]? with
       | some e => e.2.coAns name
-      | none => .silent }
+      | none => .silent,
+    cfDrop := fun i name => match arr[i]? with
+      | some e => e.2.cfDrop name
+      | none => false,
+    vb := fun i d n => match arr[i]? with
+      | some e => e.2.vbAns d n
+      | none => .int 1,
+    root := fun i => match arr[i]? with
+      | some e => e.2.root
+      | none => none }
 
 def runModel (lines : List String) : List String :=
   let p := parseCase lines
   if !p.bad.isEmpty then p.bad.reverse.map (fun l => s!"bad-line {l}")
   else
-    let trace := events driveCfg (policyOf p.steps) driveFuel (p.steps.map (·.1))
+    let trace := events p.cfg (policyOf p.steps) driveFuel (p.steps.map (·.1))
     -- the real driver is dead after a crash: nothing is printed after the first crashing segment
     let upto := trace.takeWhile (fun r => !r.crash) ++ (trace.dropWhile (fun r => !r.crash)).take 1
     upto.flatMap StepRec.render
@@ -258,7 +327,7 @@ def parseRes (ws : List String) : Option Res :=
   match ws with
   | ["nobj"] => some .nobj
   | ["err", e] =>
-    ([Err.noEuidLoad, .noEuidClone, .exportZero, .badArg, .policy].find? (fun x => x.render == e)).map .err
+    ([Err.noEuidLoad, .noEuidClone, .exportZero, .badArg, .policy, .simulDest, .bindDenied].find? (fun x => x.render == e)).map .err
   | [x] =>
     match x.toInt? with
     | some n => some (.int n)
@@ -313,13 +382,20 @@ def jline (j : JParse) (line : String) : JParse :=
   | [] => j
   | ["do", o, ops] =>
     match parseOp ops, j.cur with
-    | some op, none => { j with stack := (o, op) :: j.stack, cur := some { actor := o, op := op } }
+    | some op, none =>
+      -- a bind() announces in its first segment as whom the function is going to run
+      let bt := match op with
+        | .bind t _ => some t
+        | _ => none
+      { j with stack := (o, op) :: j.stack, cur := some { actor := o, op := op, bindTo := bt } }
     | _, _ => { j with bad := line :: j.bad }
   | ["vs", o, u, spec] =>
     j.upd line fun r =>
       match parseU u, parseAns spec with
       | some (some u), some a => if r.vs.isNone then some { r with vs := some (o, u, a) } else none
       | _, _ => none
+  | ["vb", d, n, spec] =>
+    j.upd line fun r => if r.vb.isSome then none else (parseAns spec).map fun a => { r with vb := some (d, n, a) }
   | ["co", name, spec] =>
     j.upd line fun r => if r.co.isSome then none else (parseCo spec).map fun a => { r with co := some (name, a) }
   | ["cf", name, spec] =>
@@ -356,9 +432,13 @@ def parseTrace (lines : List String) : List StepRec × List String :=
   (done.reverse, j.bad.reverse ++ (if j.cur.isSome then ["segment without snapshot"] else []))
 
 def runJudge (body : List String) : List String :=
-  let (_input, impl) := splitJudge body
+  let (input, impl) := splitJudge body
   let (trace, bad) := parseTrace impl
-  let vs := bad.map (fun l => s!"unparsed {l}") ++ judgeEv driveCfg.root driveCfg.bb trace
+  -- the configuration (which master, simul_efun object as actor) is part of the case, not of the trace
+  let cfg := (input.filterMap (fun l => match toks l with
+    | "cfg" :: flags => parseCfgFlags flags
+    | _ => none)).head?.getD driveCfg
+  let vs := bad.map (fun l => s!"unparsed {l}") ++ judgeEv cfg trace
   match vs with
   | [] => ["ok"]
   | vs => vs.map (fun v => s!"bad {v}")
